@@ -44,6 +44,8 @@ type c10E2ECase struct {
 	Min      *int64     `json:"min_percent"`
 	Old      []int      `json:"old_be_cpuset"`
 	CurQuota int64      `json:"current_quota"`
+
+	strictFile bool // the quota clause is judged on the file content even where it differs from the last update handed over
 }
 
 // c10Tee records every update and hands it to the real executor.
@@ -87,6 +89,14 @@ func c10ReadFile(p string) string {
 }
 
 func c10RunE2ECase(t *testing.T, tree *c10Tree, l *c10Layout, c *c10E2ECase) (ps string, tee *c10Tee) {
+	return c10RunE2ERounds(t, tree, l, c, nil, nil)
+}
+
+// c10RunE2ERounds: with policies == nil one round with c's policy; otherwise len(policies) successive rounds on the SAME
+// CPUSuppress instance (same executor and resource cache), the NodeSLO's suppress policy switching between the rounds
+// (true = cfsQuota); after every round `after` gets the round's case (policy of the round, BE cpuset and quota as they were
+// before the round) and what the round wrote.
+func c10RunE2ERounds(t *testing.T, tree *c10Tree, l *c10Layout, c *c10E2ECase, policies []bool, after func(round int, rc *c10E2ECase, ps string, tee *c10Tee)) (ps string, tee *c10Tee) {
 	ctl := gomock.NewController(t)
 	defer ctl.Finish()
 	lse := c10Pod{QoS: "LSE"}
@@ -112,7 +122,7 @@ func c10RunE2ECase(t *testing.T, tree *c10Tree, l *c10Layout, c *c10E2ECase) (ps
 	si := mockstatesinformer.NewMockStatesInformer(ctl)
 	si.EXPECT().GetAllPods().Return(pods).AnyTimes()
 	si.EXPECT().GetNode().Return(node).AnyTimes()
-	si.EXPECT().GetNodeSLO().Return(slo).AnyTimes()
+	si.EXPECT().GetNodeSLO().DoAndReturn(func() *slov1alpha1.NodeSLO { return slo }).AnyTimes()
 	si.EXPECT().GetNodeTopo().Return(c10BuildTopo(c.Topo)).AnyTimes()
 
 	mcache := mockmetriccache.NewMockMetricCache(ctl)
@@ -161,7 +171,30 @@ func c10RunE2ECase(t *testing.T, tree *c10Tree, l *c10Layout, c *c10E2ECase) (ps
 	stop := make(chan struct{})
 	defer close(stop)
 	r.init(stop)
-	ps = c10Guard(func() { r.suppressBECPU() })
+	if policies == nil {
+		ps = c10Guard(func() { r.suppressBECPU() })
+		return ps, tee
+	}
+	for i, q := range policies {
+		rc := *c
+		rc.Quota = q
+		rc.strictFile = true
+		rc.Old, _ = c10ParseList(c10ReadFile(tree.ctrFile))
+		rc.CurQuota, _ = strconv.ParseInt(c10ReadFile(tree.quotaFile), 10, 64)
+		pol := slov1alpha1.CPUSetPolicy
+		if q {
+			pol = slov1alpha1.CPUCfsQuotaPolicy
+		}
+		ns := slo.DeepCopy() // the states informer hands out a new object after every NodeSLO update
+		ns.Spec.ResourceUsedThresholdWithBE.CPUSuppressPolicy = pol
+		slo = ns
+		tee.writes = nil
+		ps = c10Guard(func() { r.suppressBECPU() })
+		after(i, &rc, ps, tee)
+		if ps != "" {
+			break
+		}
+	}
 	return ps, tee
 }
 
@@ -230,8 +263,12 @@ func c10JudgeE2E(tree *c10Tree, l *c10Layout, c *c10E2ECase, ps string, tee *c10
 	if c.Quota {
 		cur := c10ReadFile(tree.quotaFile)
 		if quotaWritten && cur != lastQuota {
-			cnt("file_differs_from_last_update", 1) // judge the agent's decision, not what the executor made of it
-			cur = lastQuota
+			cnt("file_differs_from_last_update", 1)
+			if !c.strictFile {
+				cur = lastQuota // single rounds: judge the agent's decision, not what the executor made of it
+			}
+			// rounds on one instance: what counts is what the BE cgroup ends up with (an update handed to the executor's
+			// cacheable path can be skipped against a stale cache entry)
 		}
 		w, err := strconv.ParseInt(cur, 10, 64)
 		if err != nil {
@@ -286,6 +323,85 @@ func c10JudgeE2E(tree *c10Tree, l *c10Layout, c *c10E2ECase, ps string, tee *c10
 		cnt("budget_above_eligible_cases", 1)
 	}
 	return vs
+}
+
+// c10RunE2ERoundsPart: every policy sequence of the given length on one CPUSuppress instance; every round is judged like a
+// single round whose starting files are what the previous round left (seed C10-2: a cached quota write skipped after the
+// uncached recovery to -1 left BE unlimited in quota mode).
+func c10RunE2ERoundsPart(t *testing.T, env *mc.Env, tree *c10Tree, layouts []*c10Layout) {
+	res := mc.NewResult("C10", "e2e-rounds", "enumeration")
+	ds := mc.NewDistinctSet()
+	saved := metriccache.DefaultAggregateResultFactory
+	defer func() { metriccache.DefaultAggregateResultFactory = saved }()
+	m25 := int64(25)
+	type tm struct {
+		thr int64
+		min *int64
+	}
+	tms := []tm{{65, nil}, {100, &m25}}
+	nRounds := env.Pick(4, 5)
+	res.Exhaustive = true
+	cnt := func(k string, n int64) { res.Count(k, n) }
+	var total int64
+outer:
+	for _, l := range layouts {
+		olds := c10DedupSets([][]int{l.ids(), c10FirstK(min(2, l.N))})
+		rx := mc.Radix{Dims: []int{1 << uint(nRounds), 2, len(tms), len(olds)}}
+		total += rx.Size()
+		for i := int64(0); i < rx.Size(); i++ {
+			if env.Expired() {
+				res.Exhaustive = false
+				res.Capped = fmt.Sprintf("time budget hit in layout %s after %d of %d sequences", l.Name, i, rx.Size())
+				break outer
+			}
+			d := rx.Decode(i, make([]int, 0, 4))
+			pol := make([]bool, nRounds)
+			seq := ""
+			for k := range pol {
+				pol[k] = d[0]&(1<<uint(k)) != 0
+				seq += map[bool]string{true: "Q", false: "S"}[pol[k]]
+			}
+			c := &c10E2ECase{Layout: l.Name, LSUsage: []int64{0, 3}[d[1]], Thr: tms[d[2]].thr, Min: tms[d[2]].min, Old: olds[d[3]], CurQuota: -1}
+			if d[3] == 1 {
+				c.CurQuota = int64(l.N) * system.DefaultCPUCFSPeriod
+			}
+			res.Evaluations++
+			switches := 0
+			c10RunE2ERounds(t, tree, l, c, pol, func(round int, rc *c10E2ECase, ps string, tee *c10Tee) {
+				cnt("rounds_judged", 1)
+				if round > 0 && pol[round] != pol[round-1] {
+					switches++
+					cnt("rounds_after_a_policy_switch", 1)
+				}
+				if round > 1 && pol[round] && !pol[round-1] && pol[round-2] {
+					cnt("quota_rounds_after_quota_then_cpuset", 1)
+				}
+				for _, v := range c10JudgeE2E(tree, l, rc, ps, tee, cnt) {
+					v.Key += "|round-of-sequence"
+					v.What = fmt.Sprintf("policy sequence %s, round %d: %s", seq, round+1, v.What)
+					res.Violate(v)
+				}
+			})
+			if switches > 0 {
+				h := fnv.New64a()
+				fmt.Fprint(h, *c, c10PtrStr(c.Min), seq, c10ReadFile(tree.ctrFile), c10ReadFile(tree.quotaFile))
+				ds.AddHash(h.Sum64())
+			}
+			if i%37 == 5 {
+				res.Sample(fmt.Sprintf("%+v min=%s policies %s -> containers:%q quota:%s", *c, c10PtrStr(c.Min), seq, c10ReadFile(tree.ctrFile), c10ReadFile(tree.quotaFile)))
+			}
+		}
+	}
+	res.Traces = res.Evaluations
+	res.Distinct = ds.Len()
+	var names []string
+	for _, l := range layouts {
+		names = append(names, l.Name)
+	}
+	res.Rule = fmt.Sprintf("%d successive suppressBECPU() rounds on ONE CPUSuppress instance (real executor with its resource cache, real files) for every policy sequence in {cpuset,cfsQuota}^%d x layouts%v x LS pod usage{0,3} x (threshold,min){(65,nil),(100,25)} x (old BE cpuset,current quota){(all,unset),({0,1},N periods)}; every round judged as a single round starting from the files the previous round left; non-trivial = the sequence switches policy at least once", nRounds, nRounds, names)
+	res.Bounds = map[string]any{"sequences": total, "rounds": nRounds}
+	res.Assumptions = []string{"rounds follow each other inside the executor's forced-update interval (no wall-clock wait between rounds)"}
+	env.Emit(res)
 }
 
 func c10RunE2EPart(t *testing.T, env *mc.Env, tree *c10Tree, layouts []*c10Layout) {
